@@ -59,6 +59,7 @@ def run(idx: ProgramIndex, rep: Report, tier: str):
         none_refused(idx, c, rep)
     dispatch(idx, rep, fs)
     axis_addressing(idx, rep, fs)
+    saved_outputs_intact(idx, rep)
     rep.assume("callables passed into a Function (sq_dist_func, dist_func) return freshly allocated tensors (Kernel.covar_dist does)")
 
 
@@ -578,3 +579,88 @@ def axis_addressing(idx: ProgramIndex, rep: Report, fs: List[ClassInfo], rule: s
                 else:
                     rep.add(rule, inst, where, v, "reduces over dim %s" % src(dim) if v else "`%s` reduces over a non-negative dim (a batch axis when the input is batched)" % norm(c)[:60], {})
     rep.floor(rule, "axis-addressing calls in Function modules", n, floor)
+
+
+# ---- C19-7 ---------------------------------------------------------------------------------------------------------
+# operations whose backward pass reads their own *output* (torch/csrc/autograd/derivatives.yaml: result used in the formula)
+OUTPUT_SAVING = {"solve", "exp", "sqrt", "rsqrt", "sigmoid", "tanh", "softmax", "log_softmax", "cholesky", "cholesky_solve", "reciprocal", "erf",
+                 "inv_matmul", "triangular_solve", "solve_triangular", "expm1", "tan", "cumprod", "prod", "logsumexp", "inverse", "pinverse", "matrix_exp"}
+ALIAS_VIEWS = {"squeeze", "unsqueeze", "view", "reshape", "transpose", "permute", "mT", "T", "expand", "contiguous", "flatten", "movedim", "select", "narrow", "view_as", "diagonal"}
+FRESH = {"clone", "detach", "to_dense", "double", "float", "masked_fill", "where", "mul", "add", "sub", "div", "matmul"}
+
+
+def saved_outputs_intact(idx: ProgramIndex, rep: Report):
+    """torch keeps the *output* of some operations for their backward pass (solve, exp, sqrt, sigmoid, cholesky, ...).  Writing into such
+    an output in place (`out[mask] = v`, `out.op_()`, `out += v`) - directly or through a view - makes every later backward through it
+    raise ('one of the variables needed for gradient computation has been modified by an inplace operation').  Flow-sensitive over each
+    function body: a local bound to the result of an output-saving operation (possibly through views) must not be written in place
+    before it is rebound to a fresh tensor (clone / detach / an out-of-place operation)."""
+    rep.rule("C19-7", "results that autograd keeps for the backward pass (solve, exp, sqrt, cholesky, ...) are not written in place: gradients through the value stay available")
+    from ..symbolic import walk_paths
+    n = 0
+    sites = 0
+    for fi in sorted(idx.all_functions(), key=lambda f: (f.module.name, f.qualname)):
+        if not any(isinstance(x, ast.Subscript) and isinstance(x.ctx, ast.Store) for x in ast.walk(fi.node)) and \
+           not any(isinstance(c.func, ast.Attribute) and c.func.attr.endswith("_") and not c.func.attr.startswith("_") for c in calls_in(fi.node)) and \
+           not any(isinstance(x, ast.AugAssign) for x in ast.walk(fi.node)):
+            continue
+        if not any(isinstance(c.func, ast.Attribute) and c.func.attr in OUTPUT_SAVING or (chain(c.func) or "").split(".")[-1] in OUTPUT_SAVING for c in calls_in(fi.node)):
+            continue
+        n += 1
+        probs = set()
+
+        def origin(e, saved):
+            """name of the output-saving op whose result e aliases, or None"""
+            while True:
+                if isinstance(e, ast.Name):
+                    return saved.get(e.id)
+                if isinstance(e, ast.Attribute) and e.attr in ALIAS_VIEWS:
+                    e = e.value
+                    continue
+                if isinstance(e, ast.Subscript):
+                    e = e.value
+                    continue
+                if isinstance(e, ast.Call):
+                    fn = e.func
+                    if isinstance(fn, ast.Attribute) and fn.attr in ALIAS_VIEWS:
+                        e = fn.value
+                        continue
+                    short = fn.attr if isinstance(fn, ast.Attribute) else (chain(fn) or "").split(".")[-1]
+                    if short in OUTPUT_SAVING and (chain(fn) or "").split(".")[0] not in ("math", "np", "numpy"):
+                        return short
+                    return None
+                return None
+
+        for path, seq in walk_paths(fi, limit=3000):
+            saved: Dict[str, str] = {}
+            for st, _env in seq:
+                if not isinstance(st, ast.stmt):
+                    continue
+                if isinstance(st, ast.Assign):
+                    # in-place through subscript store
+                    for t in st.targets:
+                        if isinstance(t, ast.Subscript):
+                            o = origin(t.value, saved)
+                            if o:
+                                sites += 1
+                                probs.add("`%s` (line %d) writes into the result of %s(), which autograd keeps for the backward pass" % (" ".join(src(st).split())[:60], st.lineno, o))
+                    for t in st.targets:
+                        if isinstance(t, ast.Name):
+                            o = origin(st.value, saved)
+                            if o:
+                                saved[t.id] = o
+                            else:
+                                saved.pop(t.id, None)
+                elif isinstance(st, ast.AugAssign):
+                    o = origin(st.target, saved) if isinstance(st.target, (ast.Name, ast.Subscript)) else None
+                    if o:
+                        probs.add("`%s` (line %d) updates the result of %s() in place" % (" ".join(src(st).split())[:60], st.lineno, o))
+                elif isinstance(st, ast.Expr) and isinstance(st.value, ast.Call) and isinstance(st.value.func, ast.Attribute):
+                    m = st.value.func.attr
+                    if m.endswith("_") and not m.startswith("_") and m not in ("requires_grad_", "register_hook_"):
+                        o = origin(st.value.func.value, saved)
+                        if o:
+                            probs.add("`%s` (line %d) updates the result of %s() in place" % (" ".join(src(st).split())[:60], st.lineno, o))
+        rep.add("C19-7", "%s:%s" % (fi.module.name, fi.qualname), fi.where, not probs,
+                "no in-place write reaches a result that autograd saved" if not probs else "; ".join(sorted(probs)) + ": a backward pass through this value raises (gradients of predictions / objectives through it are lost)", {})
+    rep.floor("C19-7", "functions combining output-saving operations with in-place writes", n, 3)
